@@ -7,13 +7,19 @@
 //! would not see that the same data any more
 
 use std::fmt;
+#[cfg(not(may_verif))]
 use std::sync::atomic::{AtomicUsize, Ordering};
+#[cfg(may_verif)]
+use crate::verif::atomic::{AtomicUsize, Ordering};
 use std::sync::mpsc::{RecvError, RecvTimeoutError, SendError, TryRecvError};
 use std::sync::Arc;
 use std::time::Duration;
 
 use super::Semphore;
+#[cfg(not(may_verif))]
 use crossbeam::queue::SegQueue;
+#[cfg(may_verif)]
+use crate::verif::SegQueue;
 
 /// /////////////////////////////////////////////////////////////////////////////
 /// InnerQueue
